@@ -101,7 +101,7 @@ def model_ok(model, clauses, assumptions):
     return None
 
 
-def h_sat(s, formulas, assumption_sets, which, reduce_at=None, sym_budgets=True, max_solution_limit=None):
+def h_sat(s, formulas, assumption_sets, which, reduce_at=None, sym_budgets=True, max_solution_limit=None, budget_cap=None):
     mod = importlib.import_module("solvor.sat")
     fi = s.choice("formula", len(formulas))
     clauses = [tuple(c) for c in formulas[fi]]
@@ -114,8 +114,8 @@ def h_sat(s, formulas, assumption_sets, which, reduce_at=None, sym_budgets=True,
     luby_factor, max_conflicts, max_restarts = 100, 100000, 10000
     if sym_budgets is True or sym_budgets == "all":
         luby_factor = s.int("luby_factor", 1, None)
-        max_conflicts = s.int("max_conflicts", 0, None)
-        max_restarts = s.int("max_restarts", 0, None)
+        max_conflicts = s.int("max_conflicts", 0, budget_cap)
+        max_restarts = s.int("max_restarts", 0, budget_cap)
     elif sym_budgets == "conflicts":
         max_conflicts = s.int("max_conflicts", 0, None)
     elif sym_budgets == "restarts":
@@ -288,12 +288,46 @@ def build_items(tier, rng, which):
         add("cumulative18_none", [cu], [(), (-1,)], 1, params={"max_solution_limit": 2, "sym_budgets": "none"}, path_wall_s=20)
         add("cumulative18_conflicts", [cu], [()], 1, params={"max_solution_limit": 1, "sym_budgets": "conflicts"},
             path_wall_s=20, max_paths=24 if q else 400)
-    # (d) larger formulas near the satisfiability threshold so that learning, backjumping and restarts fire
+    # (d) larger formulas near the satisfiability threshold so that learning, backjumping and restarts fire; half of them satisfiable
+    # (balanced with the z3 oracle while sampling: a wrong INFEASIBLE / a missed model can only show on satisfiable inputs)
     big = []
-    for _ in range(64 if q else 1500):
-        n = rng.choice([4, 5, 6])
-        big.append(random_cnf(rng, n, rng.randint(2 * n, 4 * n + 2)))
+    want_sat = want_unsat = (40 if q else 750)
+    tries = 0
+    while (want_sat or want_unsat) and tries < 20000:
+        tries += 1
+        n = rng.choice([5, 6, 7])
+        m = rng.randint(n + 2, 3 * n)
+        f = []
+        for _ in range(m):
+            k = rng.choice([2, 2, 3, 3, 3])
+            vs = rng.sample(range(1, n + 1), k)
+            f.append(tuple(v * rng.choice([1, -1]) for v in vs))
+        sol, _xs = oracle_sat(f, [])
+        is_sat = sol.check() == z3.sat
+        if is_sat and want_sat:
+            want_sat -= 1
+            big.append(f)
+        elif (not is_sat) and want_unsat:
+            want_unsat -= 1
+            big.append(f)
     add("threshold", big, [(), (1, -2)], 2, params={"max_solution_limit": 2})
+    # the same formulas with the two budgets symbolic but bounded (0..24): every path ends within the budgets, so verdicts stay
+    # reachable even if a change makes the search spin until a budget stops it
+    add("threshold_capped", big[: (40 if q else 600)], [()], 2, params={"max_solution_limit": 1, "budget_cap": 24}, max_paths=150, path_wall_s=25)
+    # (d') planted-model 3-SAT at the threshold clause ratio 4.2 on 6-8 variables: satisfiable by construction, hard enough that
+    # learning, backjumps above level 0 and restarts interleave
+    planted = []
+    for _ in range(48 if q else 600):
+        n = rng.choice([6, 7, 8])
+        model = {v: rng.random() < 0.5 for v in range(1, n + 1)}
+        f = []
+        while len(f) < int(4.2 * n):
+            vs = rng.sample(range(1, n + 1), 3)
+            c = tuple(v * rng.choice([1, -1]) for v in vs)
+            if any((l > 0) == model[abs(l)] for l in c):
+                f.append(c)
+        planted.append(f)
+    add("planted_capped", planted, [()], 2, params={"max_solution_limit": 1, "budget_cap": 24}, max_paths=150, path_wall_s=25)
     # (a) exhaustive small sets
     add("clean3_le2", sets1 + sets2, [()], 12, **lim)
     add("clean3_x3", rng.sample(sets3, 400) if q else sets3, [()], 12 if q else 40, **lim)
